@@ -88,14 +88,41 @@ def const_value(n, env=None):
     return None
 
 
+def c_unescape(v):
+    """decode the C string literal text clang prints (with its quotes) into a latin-1 str"""
+    v = v.strip()
+    if v.startswith('"') and v.endswith('"'):
+        v = v[1:-1]
+    out, i = [], 0
+    simple = {"n": 10, "t": 9, "r": 13, "0": 0, "\\": 92, '"': 34, "'": 39, "a": 7, "b": 8, "f": 12, "v": 11}
+    while i < len(v):
+        c = v[i]
+        if c != "\\":
+            out.append(ord(c)); i += 1
+            continue
+        i += 1
+        if i >= len(v):
+            break
+        c = v[i]
+        if c in "01234567":
+            j = i
+            while j < len(v) and j < i + 3 and v[j] in "01234567":
+                j += 1
+            out.append(int(v[i:j], 8) & 255); i = j
+        elif c == "x":
+            j = i + 1
+            while j < len(v) and v[j] in "0123456789abcdefABCDEF":
+                j += 1
+            out.append(int(v[i + 1:j], 16) & 255); i = j
+        else:
+            out.append(simple.get(c, ord(c))); i += 1
+    return "".join(chr(b) for b in out)
+
+
 def string_literal(n):
     m = strip(n)
     if m.get("kind") == "StringLiteral":
-        v = m.get("value", '""')
-        try:
-            return json.loads(v)
-        except Exception:
-            return v.strip('"')
+        return c_unescape(m.get("value", '""'))
     return None
 
 
@@ -306,6 +333,73 @@ def qos_subtypes(repo, cflags):
     return res
 
 
+# ------------------------------------------------------------------ RSN / WPA suite enumeration switches
+def suite_tables(repo, cflags, fname):
+    """the three switches of libwifi_enumerate_{rsn,wpa}_suites in source order: for each
+    [(selector, or of the flags set in that case)], plus the OUI literal(s) compared with memcmp"""
+    path = os.path.join(repo, "src/libwifi/parse/misc/security.c")
+    fn = find_function(ast_of(cflags, path, fname), fname)
+    if fn is None:
+        return None
+    sws = [n for n in walk(fn) if n.get("kind") == "SwitchStmt"]
+    if len(sws) != 3:
+        return None
+    tables = []
+    for sw in sws:
+        body = [c for c in sw["inner"] if c.get("kind") == "CompoundStmt"]
+        if not body:
+            return None
+        table, pending, acc = [], [], 0
+
+        def flush():
+            nonlocal pending, acc
+            for p in pending:
+                if p != "default":
+                    table.append((p, acc))
+            pending, acc = [], 0
+
+        def handle(st):
+            nonlocal pending, acc
+            k = st.get("kind")
+            if k == "CaseStmt":
+                if pending and acc:
+                    return False
+                v = const_value(st["inner"][0])
+                if v is None:
+                    return False
+                pending.append(v)
+                return handle(st["inner"][-1])
+            if k == "DefaultStmt":
+                pending.append("default")
+                return handle(st["inner"][-1])
+            if k == "CompoundAssignOperator" and st.get("opcode") == "|=":
+                v = const_value(st["inner"][1])
+                if v is None:
+                    return False
+                acc |= v
+                return True
+            if k == "BreakStmt":
+                flush()
+                return True
+            return False
+        for st in body[0].get("inner", []):
+            if not handle(st):
+                return None
+        flush()
+        tables.append(table)
+    ouis = []
+    for n in walk(fn):
+        if n.get("kind") == "CallExpr":
+            callee = strip(n["inner"][0])
+            if callee.get("referencedDecl", {}).get("name") == "memcmp":
+                lits = [string_literal(a) for a in n["inner"][1:]]
+                lits = [x for x in lits if x is not None]
+                ouis += lits
+    if not ouis or any(o != ouis[0] for o in ouis) or len(ouis) != 3:
+        return None
+    return tables, ouis[0]
+
+
 # ------------------------------------------------------------------ EAPOL: key-information switch, key-data cap
 def eapol_tables(repo, cflags):
     path = os.path.join(repo, "src/libwifi/parse/data/eapol.c")
@@ -457,6 +551,14 @@ def emit_all(repo, gen, cflags, write_if_changed, build, env=None):
         o.append(";\n".join("  (%s, %s)" % (zlit(v), coq_str(s)) for v, s in table))
         o.append("].")
         o.append("Definition tag_name_default : string := %s." % coq_str(default))
+    for kind in ("rsn", "wpa"):
+        t = suite_tables(repo, cflags, "libwifi_enumerate_%s_suites" % kind)
+        o.append("Definition %s_suites_ok : bool := %s." % (kind, "true" if t else "false"))
+        names = ("group", "pairwise", "akm")
+        for i, nm in enumerate(names):
+            rows = t[0][i] if t else []
+            o.append("Definition %s_%s_table : list (Z * Z) := [%s]." % (kind, nm, "; ".join("(%s, %s)" % (zlit(a), zlit(b)) for a, b in rows)))
+        o.append("Definition %s_oui : list Z := %s." % (kind, bytes_list(t[1]) if t else "[]"))
     msg, cap = eapol_tables(repo, cflags)
     o.append("Definition eapol_msg_ok : bool := %s." % ("true" if msg is not None else "false"))
     o.append("Definition eapol_msg_table : list (Z * Z) := [%s]." % "; ".join("(%s, %s)" % (zlit(a), zlit(b)) for a, b in (msg[0] if msg else [])))
